@@ -287,10 +287,10 @@ HEnv(e) ==
    query being sent is requeued with one more try; which query it was is inferred at the notification *)
 OpenFailed(e) ==
   LET tcpopen == IF e.op = "open" THEN e.tcp = 1 ELSE (e.fd \in DOMAIN fdi /\ fdi[e.fd].tcp) IN
-  \* not modelled: a second failure before the first is attributed, TCP connection attempts, and failures while
-  \* several queries wait to be sent (which of them made the attempt cannot be told from the trace)
-  IF openfail \/ tcpopen \/ Cardinality({id \in DOMAIN q : q[id].st = "tosend"}) > 1 THEN OutOfScope
-  ELSE openfail' = TRUE /\ UNCHANGED <<rvars, toks, tcpin, newtry, bad, why>>
+  \* not modelled: a second failure before the first is attributed, and failures while several queries wait to be
+  \* sent (which of them made the attempt cannot be told from the trace)
+  IF openfail # "" \/ Cardinality({id \in DOMAIN q : q[id].st = "tosend"}) > 1 THEN OutOfScope
+  ELSE openfail' = (IF tcpopen THEN "tcp" ELSE "udp") /\ UNCHANGED <<rvars, toks, tcpin, newtry, bad, why>>
 
 HSk(e) ==
   CASE e.op = "open" ->
@@ -324,10 +324,10 @@ HSrv(e) ==
        ELSE Rej("c09.success_notification_without_accepted_answer")
   ELSE IF owedF[e.s] > 0 THEN /\ owedF' = [owedF EXCEPT ![e.s] = @ - 1]
                               /\ UNCHANGED <<cfg, now, srv, fdi, q, owedO, proc, oos, xvars>> /\ Acc
-  ELSE IF openfail THEN
+  ELSE IF openfail # "" THEN
        \* the attempt that could not open a connection to e.s: either a query waiting to be (re)sent, or a request
        \* that has not transmitted anything yet
-       LET waiting == {id \in DOMAIN q : q[id].st = "tosend" /\ ~q[id].tcp}
+       LET waiting == {id \in DOMAIN q : q[id].st = "tosend" /\ q[id].tcp = (openfail = "tcp")}
            fresh == {t \in DOMAIN newtry : Live(t, 1) = {} /\ \A id \in DOMAIN q : q[id].t # t}
            wok == {id \in waiting : IF q[id].reqsrv # 0 THEN q[id].reqsrv = e.s ELSE FreshChoiceOk(e.s)}
        IN IF waiting # {} THEN
@@ -335,14 +335,14 @@ HSrv(e) ==
                ELSE \E id \in wok :
                   /\ srv' = FailServer(e.s)
                   /\ q' = DropDoneProbes([q EXCEPT ![id] = Requeued(q[id], TRUE, "ECONNREFUSED")])
-                  /\ openfail' = FALSE
+                  /\ openfail' = ""
                   /\ UNCHANGED <<cfg, now, fdi, owedF, owedO, proc, oos, toks, tcpin, newtry>> /\ Acc
-          ELSE IF fresh # {} THEN
+          ELSE IF fresh # {} /\ (cfg.usevc = 1) = (openfail = "tcp") THEN
                IF ~FreshChoiceOk(e.s) THEN Rej("c09.connection_attempt_not_to_best_server")
                ELSE \E t \in fresh :
                   /\ srv' = FailServer(e.s)
                   /\ newtry' = [newtry EXCEPT ![t] = @ + 1]
-                  /\ openfail' = FALSE
+                  /\ openfail' = ""
                   /\ UNCHANGED <<cfg, now, fdi, q, owedF, owedO, proc, oos, toks, tcpin>> /\ Acc
           ELSE OutOfScope
   ELSE IF proc.in /\ proc.nonfd /\ TimedOutCandidates(e.s) # {} THEN
@@ -419,7 +419,7 @@ Handle(e) ==
 
 Verdict == [verdict |-> IF bad THEN "REJ" ELSE "ACC", id |-> hid, line |-> why.line, label |-> why.label, oos |-> oos]
 
-TInit == /\ RInit /\ toks = <<>> /\ tcpin = <<>> /\ openfail = FALSE /\ newtry = <<>> /\ nest = 0
+TInit == /\ RInit /\ toks = <<>> /\ tcpin = <<>> /\ openfail = "" /\ newtry = <<>> /\ nest = 0
          /\ l = 1 /\ bad = FALSE /\ why = [line |-> 0, label |-> ""] /\ hid = ""
 
 TNext ==
@@ -430,7 +430,7 @@ TNext ==
             /\ (hid # "" => PrintT(ToJson(Verdict)))
             /\ cfg' = [nsrv |-> 0] /\ now' = 0 /\ srv' = <<>> /\ fdi' = <<>> /\ q' = <<>> /\ owedF' = <<>> /\ owedO' = <<>>
             /\ proc' = [in |-> FALSE, nonfd |-> FALSE, nrecv |-> 0, inbox |-> <<>>] /\ oos' = FALSE
-            /\ toks' = <<>> /\ tcpin' = <<>> /\ openfail' = FALSE /\ newtry' = <<>>
+            /\ toks' = <<>> /\ tcpin' = <<>> /\ openfail' = "" /\ newtry' = <<>>
             /\ bad' = FALSE /\ why' = [line |-> 0, label |-> ""]
             /\ hid' = e.id /\ nest' = 0
        ELSE /\ hid' = hid
